@@ -14,7 +14,7 @@ ID = "C03"
 TAG = "finder"
 EXTRACT = "FA/Extract/ExtractFinder.v"
 DRIVER = "driver_finder.ml"
-COQ_FILES = ["FA/Proofs/LambdaFinderProofs.v", "FA/Properties/C03.v"]
+COQ_FILES = ["FA/Proofs/LambdaFinderProofs.v", "FA/Proofs/LambdaFinderLayouts.v", "FA/Proofs/LambdaFinderWitness.v", "FA/Properties/C03.v"]
 
 LEVEL = ("Coq theorems over a token-level executable model of util_ast's source recovery (find_identifier, tokens_till, "
          "_get_lambda_in_stream, the backing-up loop, grouping by the preceding NAME, caller/argument filters, multiplicity "
@@ -208,6 +208,24 @@ def model_answers(ctx, items: List[Item]):
     ans = ctx.driver.call("find", rows)
     for it, a in zip(live, ans):
         it.model = a
+        it.layout = None
+    # does the supported-layout theorem apply (segment decomposition at the scan's candidates)?
+    lrows, litems = [], []
+    for it in live:
+        tag, s, ext = cand[id(it)]
+        if tag == "done" and it.k0 is not None and it.probe.is_lam:
+            cl = []
+            for si, a, b in ext:
+                if si == s and (a, b) not in cl:
+                    cl.append((a, b))
+            if any(a == it.k0 for a, _ in cl):
+                lrows.append([it.probe.enc_streams(), str(s), ";".join("%d.%d" % ab for ab in cl), str(it.k0),
+                              str(it.probe.l0 + 1), fc.hx(it.op), ",".join(fc.hx(a) for a in it.probe.args), it.ptab])
+                litems.append(it)
+    for it, a in zip(litems, ctx.driver.call("layout", lrows)):
+        if a.startswith("FAIL") or a.startswith("BADCMD"):
+            raise core.MachineryError("driver layout: " + a[:200])
+        it.layout = a
     hans = ctx.driver.call("hyps", hrows)
     for it in live:
         it.hyps = None
@@ -300,6 +318,18 @@ def judge(ctx, it: Item):
                      "correspondence find (Model/LambdaFinder.v) vs _parse_source_for_lambda broke: model %s = %s, code %s "
                      "(callable marker %s at %s, caller %s); source:\n%s" % (it.model, cm, ci, it.truth, truth_pos, it.op, it.src),
                      dict(it.witness(), correspondence="find", model=it.model, impl=repr(ci)))
+    # ---- the supported-layout theorem on this case
+    lay = getattr(it, "layout", None)
+    if it.case is not None and it.case.kind == "lambda":
+        bits = lay.split(" ")[0] if lay else "none"
+        ctx.count("supported-layout theorem applies (decomposition/backs up/supported_layoutb)" +
+                  (" [documented]" if it.case.supported else " [other]"), bits)
+        if lay and bits == "111":
+            pred = int(lay.split(" ")[1])
+            if it.model != "Found %d %d" % (it.s, pred) or pred != it.k0:
+                ctx.fail("no-failing-input-found",
+                         "theorem finder_supported_layouts_partial contradicted by the extracted model (%s, predicted %d) on:\n%s"
+                         % (it.model, pred, it.src), dict(it.witness(), correspondence="liveness-theorem"))
     # ---- the theorems' hypotheses on this case
     if it.hyps is not None:
         ctx.count("hypotheses rows_ok/lambda_at/not_nested", it.hyps)
@@ -336,7 +366,7 @@ def run(ctx):
         cf = corpus_files()
         items = run_files(ctx, cf)
         ctx.notes.append("corpus: %d files, %d passed callables" % (len(cf), len(items)))
-        n_files = ctx.budget(260, 4000)
+        n_files = ctx.budget(700, 12000)
         batch = 130
         done = 0
         shown = 0
